@@ -734,29 +734,23 @@ func pxRenderFile(f *pxFile, st *pxStyle) string {
 	return w.b.String()
 }
 
-// pxRenderProgram renders the main file and every file reachable through includes.
+// pxRenderProgram renders the main file and every file reachable through includes; the key is
+// the file's path relative to the root of the tree (pxFile.Name). A file reached twice is rendered once.
 func pxRenderProgram(f *pxFile, r *Rng, mk func(*Rng) *pxStyle) map[string]string {
 	out := map[string]string{}
-	var walk func(f *pxFile, dir string)
-	walk = func(f *pxFile, dir string) {
-		if _, ok := out[dir+f.Name]; ok {
+	var walk func(f *pxFile)
+	walk = func(f *pxFile) {
+		if _, ok := out[f.Name]; ok {
 			return
 		}
-		out[dir+f.Name] = pxRenderFile(f, mk(r))
+		out[f.Name] = pxRenderFile(f, mk(r))
 		for _, i := range f.Includes {
-			if i.File == nil {
-				continue
+			if i.File != nil {
+				walk(i.File)
 			}
-			d := dir
-			if j := strings.LastIndex(i.Path, "/"); j >= 0 {
-				d = dir + i.Path[:j+1]
-			}
-			sub := *i.File
-			sub.Name = i.Path[strings.LastIndex(i.Path, "/")+1:]
-			walk(&sub, d)
 		}
 	}
-	walk(f, "")
+	walk(f)
 	return out
 }
 
